@@ -1,0 +1,31 @@
+//go:build verif
+
+// Package verifhook provides named yield points used by the verification harness in /verif.
+// With the verif build tag off every call compiles to nothing.
+package verifhook
+
+import "sync/atomic"
+
+// Func is invoked with the name of the hook point being passed.
+type Func func(point string)
+
+var current atomic.Pointer[Func]
+
+// Enabled reports whether hooks are compiled in.
+const Enabled = true
+
+// Set installs fn as the hook handler, nil removes it.
+func Set(fn Func) {
+	if fn == nil {
+		current.Store(nil)
+		return
+	}
+	current.Store(&fn)
+}
+
+// At marks a hook point.
+func At(point string) {
+	if fn := current.Load(); fn != nil {
+		(*fn)(point)
+	}
+}
